@@ -1,7 +1,14 @@
 package main
 
 import (
+	"fmt"
+	"os"
+	"path/filepath"
+	"sort"
 	"strings"
+	"time"
+
+	"github.com/shopspring/decimal"
 )
 
 func init() { runners["C01"] = runC01 }
@@ -88,21 +95,34 @@ func runC01(c *Ctx) {
 	}, BalGenOpts{Valued: true, NoFilters: true})
 	bt := c.NewBatch()
 	defer bt.Flush()
+	c01Eval(c, bt, "conservation", cases)
+	// stream "unpriced": valued reports of journals from which price declarations were withdrawn, with transactions of
+	// many bookings in which bookings of an unpriced commodity stand before, between and after priced ones
+	c01Eval(c, bt, "unpriced", c01GenUnpriced(c, "unpriced", c.N(1500, 12000)))
+}
+
+// c01Eval evaluates the property predicate on the REAL output of every case the real command accepts (whatever the
+// model or the generator expect of the case) and compares the outcome with the model's.
+func c01Eval(c *Ctx, bt *Batch, stream string, cases []*balCase) {
 	for _, bc := range cases {
 		bc := bc
 		c.Evals++
 		impl := bc.implOutcome()
 		in := bc.Input()
-		c.Class("c01/" + strings.Fields(impl)[0] + "/" + flagClass(bc.F) + "/n" + bucket(len(bc.J.Dirs)))
+		cls := "c01/" + strings.Fields(impl)[0] + "/" + flagClass(bc.F) + "/n" + bucket(len(bc.J.Dirs))
 		for _, t := range bc.Tags {
 			c.Tag(t)
+			if strings.HasPrefix(t, "shape:") {
+				cls += "/" + t
+			}
 		}
+		c.Class(cls)
 		if bc.Idx < 2 {
 			c.Sample(map[string]any{"args": strings.Join(bc.F.Args(), " "), "journal": bc.Text, "stdout": bc.Stdout})
 		}
 		if bc.Code == 0 {
 			ok, why := deltaRowsZero(bc.Stdout, bc.F.CSV)
-			c.Monitor("conservation", bc.Idx, "delta_row_zero", in, ok, why+"\n"+bc.Stdout)
+			c.Monitor(stream, bc.Idx, "delta_row_zero", in, ok, why+"\n"+bc.Stdout+"\n"+bc.Stderr)
 			c.Tag("accepted")
 		} else {
 			c.Tag("rejected")
@@ -112,7 +132,7 @@ func runC01(c *Ctx) {
 				c.Tag("model-unsupported")
 				return
 			}
-			if !c.Compare("conservation", bc.Idx, "balance", in, impl, modelOutcomeCanon(model)) {
+			if !c.Compare(stream, bc.Idx, "balance", in, impl, modelOutcomeCanon(model)) {
 				f := &c.Findings[len(c.Findings)-1]
 				if strings.HasPrefix(model, "ok ") {
 					f.Model = clip(UnHex(strings.TrimPrefix(model, "ok ")))
@@ -121,4 +141,378 @@ func runC01(c *Ctx) {
 			}
 		}, "balance", bc.F.Wire(today()), bc.J.Wire())
 	}
+}
+
+// c01GenUnpriced generates the cases of stream "unpriced" and runs the real `knut balance -v` on them. A journal of
+// the lifecycle generator with prices gets (1) the price declarations of some commodities withdrawn before a cut day
+// (or altogether), so that bookings of these commodities have no price on their date, and (2) its transactions
+// regrouped (c01Regroup): the property speaks about transactions of any number of bookings, and what a command does
+// with ONE booking it cannot value (reject the journal, as the unchanged code does; or skip it, value it at zero,
+// drop a posting ...) shows in the Delta row only in the company of other bookings.
+func c01GenUnpriced(c *Ctx, stream string, n int) []*balCase {
+	dir := filepath.Join(c.WorkDir, stream)
+	os.MkdirAll(dir, 0o755)
+	var cases []*balCase
+	for i := 0; i < n; i++ {
+		if !c.Want(stream, i) {
+			continue
+		}
+		r := c.Rng(stream, i)
+		o := JGenOpts{MaxAccounts: r.Range(2, 8), MaxDays: r.Range(1, 6), Unicode: r.Chance(1, 3), BaseDay: 737000 + r.Intn(1500), SpanDays: Pick(r, []int{0, 5, 40, 100, 400}),
+			ManyDecimals: r.Chance(1, 3), Accruals: r.Chance(1, 4), DupPrices: r.Chance(1, 2), CaseVariants: r.Chance(1, 2), BookOut: r.Chance(1, 4),
+			Prices: true, Valuation: Pick(r, []string{"CHF", "USD"})}
+		j, tags := GenJournal(r, o)
+		tags = append(tags, c01Regroup(r, j, o.Valuation)...)
+		f := GenBalFlags(r, j, o.Valuation, BalGenOpts{Valued: true, NoFilters: true})
+		text, _ := j.Text()
+		cases = append(cases, &balCase{Idx: i, J: j, Text: text, F: f, Tags: tags})
+	}
+	parallelFor(len(cases), 16, func(k int) {
+		bc := cases[k]
+		path := filepath.Join(dir, fmt.Sprintf("c%d.knut", bc.Idx))
+		os.WriteFile(path, []byte(bc.Text), 0o644)
+		args := append([]string{"balance"}, bc.F.Args()...)
+		args = append(args, path)
+		bc.Code, bc.Stdout, bc.Stderr = runKnut(c.KnutBin, 20*time.Second, nil, args...)
+		os.Remove(path)
+	})
+	return cases
+}
+
+// c01Regroup withdraws price declarations and regroups the transactions of a generated journal; every change keeps
+// the quantities of all accounts at the end of each day (assertions and closings stay true):
+//   - the declarations that mention a chosen commodity are removed before a cut day (one of the journal's days, or
+//     beyond its end), for one or more commodities; one journal in five keeps all its prices;
+//   - consecutive transactions of one day are merged into one transaction (their bookings concatenated);
+//   - a booking of quantity q is split into two (m and q-m, m a small integer, also negative);
+//   - round trips (a->b and b->a, same quantity and commodity, any two open accounts, also A/L ones: positions that
+//     exist only within the transaction) and bookings between open accounts outside assets/liabilities are added, in
+//     commodities drawn half of the time from those without a price on the day;
+//   - the bookings of a transaction are then shuffled, or those without a price moved to the front or to the end.
+//
+// Transactions with an @accrue annotation stay as they are. The tags tell which constellations the journal holds:
+// a booking without price alone in its transaction, followed by / preceded by / between priced ones, runs of them.
+func c01Regroup(r *RNG, j *Journal, val string) []string {
+	tagSet := map[string]bool{}
+	comSet := map[string]bool{val: true}
+	var bookComs, allComs []string
+	daySeen := map[int]bool{}
+	var dayList []int
+	for _, d := range j.Dirs {
+		if !daySeen[d.Date] {
+			daySeen[d.Date] = true
+			dayList = append(dayList, d.Date)
+		}
+		for _, b := range d.Bookings {
+			comSet[b.Com] = true
+			if b.Com != val && !contains(bookComs, b.Com) {
+				bookComs = append(bookComs, b.Com)
+			}
+		}
+		if d.Kind == 'p' {
+			comSet[d.Com], comSet[d.Target] = true, true
+		}
+	}
+	for k := range comSet {
+		allComs = append(allComs, k)
+	}
+	sort.Strings(allComs)
+	sort.Strings(bookComs)
+	sort.Ints(dayList)
+
+	// (1) withdraw price declarations
+	if len(bookComs) > 0 && !r.Chance(1, 5) {
+		late := map[string]int{} // commodity -> first day on which its declarations count
+		first := Pick(r, bookComs)
+		for _, cm := range bookComs {
+			if cm == first || r.Chance(1, 3) {
+				k := r.Range(1, len(dayList))
+				if k < len(dayList) {
+					late[cm] = dayList[k]
+				} else {
+					late[cm] = 1 << 40
+				}
+			}
+		}
+		var kept []JDir
+		for _, d := range j.Dirs {
+			if d.Kind == 'p' {
+				if cut, ok := late[d.Com]; ok && d.Date < cut {
+					continue
+				}
+				if cut, ok := late[d.Target]; ok && d.Date < cut {
+					continue
+				}
+			}
+			kept = append(kept, d)
+		}
+		j.Dirs = kept
+		tagSet["prices-withdrawn"] = true
+	} else {
+		tagSet["prices-complete"] = true
+	}
+	firstPrice := map[string]int{}
+	for _, d := range j.Dirs {
+		if d.Kind != 'p' {
+			continue
+		}
+		for _, cm := range []string{d.Com, d.Target} {
+			if v, ok := firstPrice[cm]; !ok || d.Date < v {
+				firstPrice[cm] = d.Date
+			}
+		}
+	}
+	priced := func(cm string, day int) bool {
+		if cm == val {
+			return true
+		}
+		v, ok := firstPrice[cm]
+		return ok && v <= day
+	}
+
+	// (2) regroup the transactions day by day
+	isAL := func(a string) bool { return strings.HasPrefix(a, "Assets") || strings.HasPrefix(a, "Liabilities") }
+	open := map[string]bool{}
+	var openList []string // in order of opening
+	amount := func() string {
+		switch r.Intn(5) {
+		case 0:
+			return fmt.Sprintf("%d", r.Range(1, 900))
+		case 1:
+			return fmt.Sprintf("-%d.%02d", r.Intn(50), r.Intn(100))
+		case 2:
+			return "0"
+		default:
+			return fmt.Sprintf("%d.%02d", r.Intn(3000), r.Intn(100))
+		}
+	}
+	extend := func(t JDir) JDir {
+		bks := append([]JBook(nil), t.Bookings...)
+		insert := func(b JBook) {
+			at := r.Intn(len(bks) + 1)
+			bks = append(bks, JBook{})
+			copy(bks[at+1:], bks[at:])
+			bks[at] = b
+		}
+		var unp []string
+		for _, cm := range allComs {
+			if !priced(cm, t.Date) {
+				unp = append(unp, cm)
+			}
+		}
+		pickCom := func() string {
+			if len(unp) > 0 && r.Bool() {
+				return Pick(r, unp)
+			}
+			return Pick(r, allComs)
+		}
+		var live, liveOther []string
+		for _, a := range openList {
+			if open[a] {
+				live = append(live, a)
+				if !isAL(a) {
+					liveOther = append(liveOther, a)
+				}
+			}
+		}
+		for k := r.Intn(4); k > 0; k-- {
+			switch r.Intn(3) {
+			case 0: // split a booking
+				if len(bks) == 0 {
+					continue
+				}
+				i := r.Intn(len(bks))
+				q, err := decimal.NewFromString(bks[i].Qty)
+				if err != nil {
+					continue
+				}
+				m := decimal.New(int64(Pick(r, []int{-3, -1, 1, 2, 7})), 0)
+				b := bks[i]
+				bks[i].Qty = q.Sub(m).String()
+				b.Qty = m.String()
+				insert(b)
+				tagSet["booking-split"] = true
+			case 1: // round trip between two open accounts
+				if len(live) < 2 {
+					continue
+				}
+				a := Pick(r, live)
+				b := Pick(r, live)
+				if a == b {
+					b = live[(indexOf(live, a)+1)%len(live)]
+				}
+				q, cm := amount(), pickCom()
+				insert(JBook{a, b, q, cm})
+				if r.Bool() {
+					insert(JBook{b, a, q, cm})
+				} else {
+					qd, _ := decimal.NewFromString(q)
+					insert(JBook{a, b, qd.Neg().String(), cm})
+				}
+				tagSet["round-trip"] = true
+			case 2: // a booking outside assets and liabilities
+				if len(liveOther) == 0 {
+					continue
+				}
+				a := Pick(r, liveOther)
+				b := Pick(r, liveOther)
+				if a == b && r.Chance(9, 10) {
+					b = liveOther[(indexOf(liveOther, a)+1)%len(liveOther)]
+				}
+				insert(JBook{a, b, amount(), pickCom()})
+				tagSet["extra-booking"] = true
+			}
+		}
+		isUnp := func(b JBook) bool { return !priced(b.Com, t.Date) }
+		switch r.Intn(5) {
+		case 0: // as they are
+		case 1, 2:
+			for i := len(bks) - 1; i > 0; i-- {
+				k := r.Intn(i + 1)
+				bks[i], bks[k] = bks[k], bks[i]
+			}
+		case 3: // unpriced bookings first
+			sort.SliceStable(bks, func(x, y int) bool { return isUnp(bks[x]) && !isUnp(bks[y]) })
+		case 4: // unpriced bookings last
+			sort.SliceStable(bks, func(x, y int) bool { return !isUnp(bks[x]) && isUnp(bks[y]) })
+		}
+		t.Bookings = bks
+		return t
+	}
+	var out []JDir
+	for i := 0; i < len(j.Dirs); {
+		d := j.Dirs[i]
+		switch d.Kind {
+		case 'o':
+			if !open[d.Account] {
+				open[d.Account] = true
+				if !contains(openList, d.Account) {
+					openList = append(openList, d.Account)
+				}
+			}
+		case 'c':
+			open[d.Account] = false
+		}
+		if d.Kind != 't' || d.Accrual != nil {
+			out = append(out, d)
+			i++
+			continue
+		}
+		k := i
+		for k < len(j.Dirs) && j.Dirs[k].Kind == 't' && j.Dirs[k].Accrual == nil && j.Dirs[k].Date == d.Date {
+			k++
+		}
+		run := j.Dirs[i:k]
+		i = k
+		if r.Chance(1, 5) {
+			out = append(out, run...)
+			continue
+		}
+		g := run[0]
+		for _, t := range run[1:] {
+			if r.Chance(2, 3) {
+				g.Bookings = append(append([]JBook(nil), g.Bookings...), t.Bookings...)
+				tagSet["transactions-merged"] = true
+			} else {
+				out = append(out, extend(g))
+				g = t
+			}
+		}
+		out = append(out, extend(g))
+	}
+	j.Dirs = out
+
+	// the constellations of the result; shape = that of the first transaction with an unpriced non-zero booking
+	shape := ""
+	for _, d := range j.Dirs {
+		if d.Kind != 't' {
+			continue
+		}
+		var u []bool // per non-zero booking: unpriced?
+		any := false
+		for _, b := range d.Bookings {
+			q, err := decimal.NewFromString(b.Qty)
+			if err != nil || q.IsZero() {
+				continue
+			}
+			u = append(u, !priced(b.Com, d.Date))
+			any = any || !priced(b.Com, d.Date)
+		}
+		if !any {
+			continue
+		}
+		var ts []string
+		if len(u) == 1 {
+			ts = append(ts, "alone")
+		}
+		for i := range u {
+			if !u[i] {
+				continue
+			}
+			if i+1 < len(u) && !u[i+1] {
+				ts = append(ts, "then-priced")
+			}
+			if i > 0 && !u[i-1] {
+				ts = append(ts, "after-priced")
+			}
+			if i+1 < len(u) && u[i+1] {
+				ts = append(ts, "run")
+			}
+			if i > 0 && i+1 < len(u) && !u[i-1] && !u[i+1] {
+				ts = append(ts, "between-priced")
+			}
+			if i == len(u)-1 && len(u) > 1 {
+				ts = append(ts, "last")
+			}
+			if i == 0 && len(u) > 1 {
+				ts = append(ts, "first")
+			}
+		}
+		if d.Accrual != nil {
+			ts = append(ts, "accrual")
+		}
+		for _, t := range ts {
+			tagSet["unpriced-"+t] = true
+		}
+		if shape == "" {
+			// position of the first unpriced booking among the non-zero bookings of the transaction
+			i, n, after := 0, len(u), false
+			for !u[i] {
+				i++
+			}
+			for _, x := range u[i+1:] {
+				after = after || !x
+			}
+			switch {
+			case n == 1:
+				shape = "shape:alone"
+			case i == 0 && !after:
+				shape = "shape:all-unpriced"
+			case i == n-1:
+				shape = "shape:last"
+			case !after:
+				shape = "shape:tail-run"
+			case i == 0:
+				shape = "shape:first-then-priced"
+			default:
+				shape = "shape:middle-then-priced"
+			}
+			if d.Accrual != nil {
+				shape += "+accrual"
+			}
+			if len(d.Bookings) >= 5 {
+				tagSet["unpriced-in-5+-bookings"] = true
+			}
+		}
+	}
+	if shape == "" {
+		shape = "shape:all-priced"
+	}
+	tagSet[shape] = true
+	var tags []string
+	for t := range tagSet {
+		tags = append(tags, t)
+	}
+	sort.Strings(tags)
+	return tags
 }
